@@ -1,21 +1,21 @@
 SPECIFICATION Spec
 CONSTANTS
-  MaxPg = 3
-  MaxOps = 3
+  MaxPg = 2
+  MaxOps = 4
   BlockOf <- BlockL1
   LockPg = 0
-  AllowWAL = FALSE
-  FinModes = {"DELETE", "TRUNCATE", "PERSIST"}
+  AllowWAL = TRUE
+  FinModes = {"DELETE"}
   AllowSpill = TRUE
-  AllowNoSync = TRUE
+  AllowNoSync = FALSE
   FixOOB = TRUE
   FixFirstRb = TRUE
-  AllowCrash = FALSE
+  AllowCrash = TRUE
   FixJournalNoPS = TRUE
   FixModeOnOpen = TRUE
   AllowRetain = FALSE
   Emit = "idle"
 VIEW view
-INVARIANTS NoFault C04_Checksum C02_Image C02_Delta C02_Outcome C09_Chain CacheSound EmitInv
+INVARIANTS NoFault C05_Recover C05_ModeAfterRestart C04_Checksum C02_Image C02_Delta C02_Outcome C09_Chain CacheSound EmitInv
 PROPERTIES C02_AtMostOne
 CHECK_DEADLOCK FALSE
